@@ -4,6 +4,15 @@ ALL_REGIONS = ['FE', 'MK', 'ST', 'IH', 'CT', 'SIG', 'AB', 'GC', 'BC', 'CN', 'AC'
                'EV', 'AS', 'DN', 'HD', 'CS', 'DA', 'DF', 'ID', 'EX']
 
 PROPS = {
+    'C18': {
+        'title': 'Behaviour does not depend on the identifiers chosen',
+        'level_text': "PARTIAL. Proof (C18.parseStates_rename, graph_rename, delta_rename; Lemmas/Rename.parse_ren): an injective renaming of state and superstate names commutes with parsing the states section (all nesting depths), with building the transition graph and with delta_M, so the declared relation of the renamed definition is the renamed relation; with C01-C16 (which hold for every validated machine whatever its names, under the no-collision side conditions N1/N2) the renamed machine behaves as the renamed specification. Clashes with identifiers used inside the generated code are rustc's name resolution, not a Lean statement: they are probed by T4 rename (adversarial identifier pool x context mode x dynamic, each against its neutral twin over the whole probe matrix) and by T2 on a corpus drawing names from that pool.",
+        'level_note': 'Known finding F6 (state named C with generic context) is listed in known_findings.json and re-observed on every run. Ties: T2 all regions, T4 rename.',
+        'modules': ['SMV.Props.C18'],
+        'regions': ['FE', 'MK', 'ST', 'IH', 'CT', 'SIG', 'SUB', 'EV', 'AS', 'DN', 'ID', 'EX'],
+        't4': ['rename'],
+        'design_ref': 'DESIGN.md §7 C18',
+    },
     'C02': {
         'title': 'Typestate API mirrors the transition relation at compile time',
         'level_text': "Proof over the emitted impl blocks (C02.method_exists_iff, method_types, new_only_initial, accessor_only_own_state): the method of e is found on M<s> iff delta_M(s,e) is defined, it is the method generated for that edge with Ok type M<target> and Err type (Self, GuardError) in the impl of s; new is found only on the initial state's type; the infallible accessors live only in the impl block of their own state. PARTIAL: that rustc's method resolution is this lookup is the trusted Static reading, validated by T4 probes over the full (leaf x event) matrix, every new, every accessor, with Ok/Err type ascriptions (E0599/E0308 keyed by line).",
@@ -38,7 +47,7 @@ PROPS = {
         'level_note': 'Known limits of the real code at the edges of well-formedness are recorded in known_findings.json (derived-name collisions, dynamic with zero events, concrete context without Default under dynamic). Ties: T2 all regions decl/sig, T4 pos, T3 builds.',
         'modules': ['SMV.Props.C14'],
         'regions': ['FE', 'MK', 'ST', 'IH', 'CT', 'SIG', 'SA', 'XA', 'SUB', 'EV', 'AS', 'DN', 'DF', 'ID', 'EX', 'DA', 'HD', 'CS'],
-        't4': ['pos'],
+        't4': ['pos', 'known'],
         'design_ref': 'DESIGN.md §7 C14',
     },
     'C17': {
